@@ -109,6 +109,7 @@ struct Session
     std::string mText = "none";
     ModelPtr flat;
     AnalyserModelPtr am;
+    std::string amSource = "none"; // digest of the model the analyser model was made from
     ParserPtr P[2]; // reused instances, strict / permissive
     ValidatorPtr V;
     AnalyserPtr A;
@@ -167,6 +168,7 @@ static void services(const J &sc, Emitter &out)
             s.m = model;
             s.mText = c["text"].str();
             s.am = nullptr;
+            s.amSource = "none";
             s.flat = nullptr;
             key += "|" + c["text"].str() + "|" + (strict ? "strict" : "permissive");
             res = modelDigest(model) + "/" + issuesDigest(p);
@@ -182,6 +184,7 @@ static void services(const J &sc, Emitter &out)
             AnalyserPtr a = fresh ? Analyser::create() : (s.A ? s.A : (s.A = Analyser::create()));
             a->analyseModel(s.m);
             s.am = a->model();
+            s.amSource = inBefore;
             key += "|" + inBefore;
             res = amDigest(s.am) + "/" + issuesDigest(a);
             auto t = s.am ? s.am->type() : AnalyserModel::Type::UNKNOWN;
@@ -193,7 +196,7 @@ static void services(const J &sc, Emitter &out)
                 g->setProfile(GeneratorProfile::create(GeneratorProfile::Profile::PYTHON));
             }
             g->setModel(s.am);
-            key += "|" + c["profile"].str("c") + "|" + amDigest(s.am);
+            key += "|" + c["profile"].str("c") + "|" + s.amSource + "|" + amDigest(s.am);
             res = sha1ish(g->interfaceCode() + "####" + g->implementationCode());
         } else if (op == "print") {
             PrinterPtr p = fresh ? Printer::create() : (s.PR ? s.PR : (s.PR = Printer::create()));
